@@ -6,96 +6,14 @@ import UgoVerif.Proofs.CompileMain
 namespace UgoVerif.Compile
 open UgoVerif UgoVerif.Go UgoVerif.Ast
 
-/-- big-endian value of a byte list -/
-def beVal (bs : List UInt8) : Nat := bs.foldl (fun acc b => acc * 256 + b.toNat) 0
-
-/-- decoder of the operand bytes of an instruction (`ReadOperands`): one big-endian value per width -/
-def readOperands : List Nat → List UInt8 → List Int
-  | [], _ => []
-  | w :: ws, bs => Int.ofNat (beVal (bs.take w)) :: readOperands ws (bs.drop w)
-
-theorem operandWidths_mem (op w : Nat) (h : w ∈ operandWidths op) : w = 1 ∨ w = 2 ∨ w = 4 := by
-  unfold operandWidths at h
-  repeat' split at h
-  all_goals simp at h
-  all_goals omega
-
-theorem u8_toNat_mod (x : Nat) : (UInt8.ofNat (x % 256)).toNat = x % 256 := by
-  simp [UInt8.toNat_ofNat']
-
-theorem beVal_beBytes (w v : Nat) (hw : w = 1 ∨ w = 2 ∨ w = 4) (hv : (v : Int) ≤ maxOf w) : beVal (beBytes w v) = v := by
-  rcases hw with rfl | rfl | rfl
-  · simp [maxOf] at hv
-    simp [beBytes, beVal, List.range, List.range.loop, UInt8.toNat_ofNat']
-    omega
-  · simp [maxOf] at hv
-    simp [beBytes, beVal, List.range, List.range.loop, UInt8.toNat_ofNat', Nat.shiftRight_eq_div_pow]
-    omega
-  · simp [maxOf] at hv
-    simp [beBytes, beVal, List.range, List.range.loop, UInt8.toNat_ofNat', Nat.shiftRight_eq_div_pow]
-    omega
-
-theorem readOperands_encode : ∀ (ws : List Nat) (as : List Int) (bs : List UInt8),
-    (∀ w ∈ ws, w = 1 ∨ w = 2 ∨ w = 4) → ws.length = as.length → encodeOperands ws as = .ok bs →
-    readOperands ws bs = as
-  | [], [], bs, _, _, _ => by simp [readOperands]
-  | [], _ :: _, _, _, hl, _ => by simp at hl
-  | _ :: _, [], _, _, hl, _ => by simp at hl
-  | w :: ws, a :: as, bs, hw, hl, h => by
-    simp only [encodeOperands] at h
-    split at h
-    · cases h
-    · rename_i h1
-      split at h
-      · cases h
-      · rename_i h2
-        split at h
-        · rename_i bs' hb
-          injection h with h
-          subst h
-          have ih := readOperands_encode ws as bs' (fun w' hw' => hw w' (by simp [hw'])) (by simpa using hl) hb
-          have hwv := hw w (by simp)
-          have hnat : ((a.toNat : Nat) : Int) = a := Int.toNat_of_nonneg (by omega)
-          simp only [readOperands]
-          rw [List.take_left' (beBytes_length _ _), List.drop_left' (beBytes_length _ _), ih,
-            beVal_beBytes w a.toNat hwv (by omega)]
-          simp [hnat]
-        · cases h
-
-/-- the operand ranges accepted by `encodeOperands` -/
-def operandsFit : List Nat → List Int → Prop
-  | w :: ws, a :: as => (0 ≤ a ∧ a ≤ maxOf w) ∧ operandsFit ws as
-  | _, _ => True
-
-theorem encodeOperands_ok_iff : ∀ (ws : List Nat) (as : List Int),
-    (∃ bs, encodeOperands ws as = .ok bs) ↔ operandsFit ws as
-  | [], _ => by simp [encodeOperands, operandsFit]
-  | _ :: _, [] => by simp [encodeOperands, operandsFit]
-  | w :: ws, a :: as => by
-    have ih := encodeOperands_ok_iff ws as
-    simp only [encodeOperands, operandsFit]
-    constructor
-    · rintro ⟨bs, h⟩
-      split at h
-      · cases h
-      · split at h
-        · cases h
-        · split at h
-          · rename_i bs' hb
-            exact ⟨⟨by omega, by omega⟩, ih.mp ⟨bs', hb⟩⟩
-          · cases h
-    · rintro ⟨⟨h1, h2⟩, h3⟩
-      obtain ⟨bs', hb⟩ := ih.mpr h3
-      rw [if_neg (by omega), if_neg (by omega), hb]
-      exact ⟨_, rfl⟩
-
 /-! ### the result of `compileProg` -/
 
-/-- what is proved of the returned bytecode: the locals of the main function and of every compiled
-    function in the constant pool fit the frame (≤ 256), and each of these instruction streams
-    decodes into complete instructions with known opcodes -/
+/-- what is proved of the returned bytecode, for the main function and for every compiled function
+    in the constant pool: the locals fit the frame (≤ 256); the instruction stream decodes into
+    complete instructions with known opcodes; the operand of every JUMP / JUMPFALSY / ANDJUMP /
+    ORJUMP and both operands of every SETUPTRY are instruction boundaries of that stream (`StreamOK`) -/
 def WFMain (bc : Bytecode) : Prop :=
-  bc.main.numLocals ≤ maxNumLocals ∧ Walk bc.main.insts 0 bc.main.insts.size ∧ ConstsOK bc.constants
+  bc.main.numLocals ≤ maxNumLocals ∧ StreamOK bc.main.insts ∧ ConstsOK bc.constants
 
 theorem goodP_compileProg (file : List Stmt) (hok : okSs file = true) : GoodP WFMain (compileProg file) := by
   have h1 := good_compileStmts file hok
